@@ -6,15 +6,15 @@
 // source, every other import replaced by an empty package (type errors are expected and ignored:
 // constant values and plain-data struct types do not depend on them), and writes
 //
-//   * the memory layout (types.SizesFor("gc", GOARCH): size, alignment, every scalar/array leaf with
+//   - the memory layout (types.SizesFor("gc", GOARCH): size, alignment, every scalar/array leaf with
 //     offset, element width, element count, signedness class, blank-ness) of every pointer-free
 //     struct type `bpf*`/`_bpf*` of package control, for every GOARCH of dae's release matrix,
 //     grouped into classes of identical layouts; and the encoding/binary ("packed", no alignment)
 //     layout, which is what cilium/ebpf's sysenc puts on the wire for such a value;
-//   * the same for the anonymous struct literal stored under "PARAM" in fullLoadBpfObjects;
-//   * every package-level integer constant (and variable with a constant initialiser) of the two
+//   - the same for the anonymous struct literal stored under "PARAM" in fullLoadBpfObjects;
+//   - every package-level integer constant (and variable with a constant initialiser) of the two
 //     packages;  the `ebpf:"…"` tags of bpfMaps / bpfPrograms / bpfVariables;
-//   * the JSON spec common/consts/ebpf_sync_spec.json as data.
+//   - the JSON spec common/consts/ebpf_sync_spec.json as data.
 //
 // usage: go run main.go <repo> <outdir> <leandir>
 package main
@@ -42,10 +42,10 @@ const modPath = "github.com/daeuniverse/dae"
 var arches = []string{"amd64", "arm64", "riscv64", "loong64", "mips64", "mips64le", "ppc64", "ppc64le", "s390x", "386", "arm", "mipsle", "mips"}
 
 type loader struct {
-	repo  string
-	fset  *token.FileSet
-	tags  []string
-	cache map[string]*pkgInfo
+	repo    string
+	fset    *token.FileSet
+	tags    []string
+	cache   map[string]*pkgInfo
 	timePkg *types.Package
 }
 
@@ -143,7 +143,7 @@ func (l *loader) load(rel string) (*pkgInfo, error) {
 		l.cache[rel] = pi
 		return pi, nil
 	}
-	pi.info = &types.Info{Types: map[ast.Expr]types.TypeAndValue{}, Defs: map[*ast.Ident]types.Object{}}
+	pi.info = &types.Info{Types: map[ast.Expr]types.TypeAndValue{}, Defs: map[*ast.Ident]types.Object{}, Uses: map[*ast.Ident]types.Object{}}
 	conf := types.Config{Importer: l, Error: func(error) {}, Sizes: types.SizesFor("gc", "amd64"), FakeImportC: true}
 	pkg, _ := conf.Check(modPath+"/"+rel, l.fset, pi.files, pi.info)
 	pi.pkg = pkg
@@ -376,16 +376,30 @@ func ebpfTags(pi *pkgInfo, typeName string) []string {
 	return out
 }
 
-// mapCall is one call `<expr>.<MapField>.<Method>(args…)` on a field of bpfMaps found in package
-// control: which map (ebpf tag), which method, and for the key / value argument its static Go type and
-// size (pointers dereferenced; 0 when the type is not plain data, e.g. a slice or an interface).
-type mapCall struct {
-	Map    string `json:"map"`
-	Method string `json:"method"`
-	Arg    int    `json:"arg"`
-	Size   int64  `json:"size"`
-	Type   string `json:"type"`
-	Where  string `json:"where"`
+// mapIO is one place where package control hands a key or a value to an eBPF map: a method call on a
+// field of bpfMaps (Update/Lookup/Delete/Batch*), one of the package's batch wrappers
+// (BpfMapBatchUpdate/BpfMapBatchDelete/BpfMapBatchDeleteAll[K,V]/BpfMapDeleteAll[K,V]), newLpmMap, or any
+// of these inside a function that receives the map as a *ebpf.Map parameter (followed to depth 3).
+// For the key / value argument: its static Go type (pointer / slice dereferenced), the translator's
+// name of that type when it is a struct type of package control ("stub.<T>"), its size when it is
+// plain data (0 = unknown: interface, not type-checkable), and its value when it is a constant.
+type mapIO struct {
+	Map      string `json:"map"`
+	Via      string `json:"via"`
+	Role     int    `json:"role"` // 0 = key, 1 = value
+	TypeName string `json:"typeName"`
+	Size     int64  `json:"size"`
+	Type     string `json:"type"`
+	Const    string `json:"const"`
+	Assigned string `json:"assigned"` // variable the result of the enclosing statement is stored in (for constant keys)
+	Where    string `json:"where"`
+}
+
+type fieldLiteral struct {
+	TypeName string `json:"typeName"`
+	Field    string `json:"field"`
+	Value    string `json:"value"`
+	Where    string `json:"where"`
 }
 
 func mapFieldTags(pi *pkgInfo) map[string]string {
@@ -406,75 +420,560 @@ func mapFieldTags(pi *pkgInfo) map[string]string {
 	return out
 }
 
-func findMapCalls(pi *pkgInfo, fset *token.FileSet) (calls []mapCall, listen [][2]string) {
-	tags := mapFieldTags(pi)
-	sizes := types.SizesFor("gc", "amd64")
-	for _, f := range pi.files {
-		ast.Inspect(f, func(n ast.Node) bool {
-			call, ok := n.(*ast.CallExpr)
-			if !ok {
-				return true
+type scanner struct {
+	pi    *pkgInfo
+	fset  *token.FileSet
+	tags  map[string]string
+	sizes types.Sizes
+	ios   []mapIO
+	// (function object, parameter index) -> map tag, for functions that are handed a bpfMaps field
+	bound map[types.Object]map[int]string
+	decls map[types.Object]*ast.FuncDecl
+}
+
+func (sc *scanner) where(p token.Pos) string {
+	pos := sc.fset.Position(p)
+	return fmt.Sprintf("%s:%d", filepath.Base(pos.Filename), pos.Line)
+}
+
+// describe returns (typeName, size, display, const) of an argument expression / type.
+func (sc *scanner) describeType(t types.Type) (string, int64, string) {
+	for {
+		switch u := t.Underlying().(type) {
+		case *types.Pointer:
+			t = u.Elem()
+			continue
+		case *types.Slice:
+			t = u.Elem()
+			continue
+		}
+		break
+	}
+	disp := types.TypeString(t, func(p *types.Package) string { return p.Name() })
+	var sz int64
+	if plain(t) {
+		sz = sc.sizes.Sizeof(t)
+	}
+	name := ""
+	if n, ok := t.(*types.Named); ok && n.Obj().Pkg() == sc.pi.pkg {
+		if _, ok := n.Underlying().(*types.Struct); ok {
+			name = "stub." + n.Obj().Name()
+		}
+	}
+	return name, sz, disp
+}
+
+func (sc *scanner) add(tag, via string, role int, e ast.Expr, assigned string, at token.Pos) {
+	tv, ok := sc.pi.info.Types[e]
+	io := mapIO{Map: tag, Via: via, Role: role, Assigned: assigned, Where: sc.where(at), Type: "?"}
+	if !ok || tv.Type == nil || tv.Type == types.Typ[types.Invalid] {
+		// a conversion `uint64(<expr the fake imports cannot type>)` still has a known type
+		if call, isCall := e.(*ast.CallExpr); isCall && len(call.Args) == 1 {
+			if id, isId := call.Fun.(*ast.Ident); isId {
+				if tn, isT := types.Universe.Lookup(id.Name).(*types.TypeName); isT {
+					io.TypeName, io.Size, io.Type = sc.describeType(tn.Type())
+				}
 			}
-			sel, ok := call.Fun.(*ast.SelectorExpr)
-			if !ok {
-				return true
+		}
+	} else if ok && tv.Type != nil {
+		io.TypeName, io.Size, io.Type = sc.describeType(tv.Type)
+		if tv.Value != nil {
+			if v := constant.ToInt(tv.Value); v.Kind() == constant.Int {
+				io.Const = v.ExactString()
 			}
-			recv, ok := sel.X.(*ast.SelectorExpr)
-			if !ok {
-				return true
+		}
+	}
+	sc.ios = append(sc.ios, io)
+}
+
+func (sc *scanner) addType(tag, via string, role int, t types.Type, at token.Pos) {
+	io := mapIO{Map: tag, Via: via, Role: role, Where: sc.where(at)}
+	io.TypeName, io.Size, io.Type = sc.describeType(t)
+	sc.ios = append(sc.ios, io)
+}
+
+// tagOf: the map an expression denotes: `<x>.<bpfMaps field>` or a parameter bound to one.
+func (sc *scanner) tagOf(e ast.Expr, env map[types.Object]string) (string, bool) {
+	switch x := e.(type) {
+	case *ast.SelectorExpr:
+		if t, ok := sc.tags[x.Sel.Name]; ok {
+			return t, true
+		}
+	case *ast.Ident:
+		if obj := sc.pi.info.Uses[x]; obj != nil {
+			if t, ok := env[obj]; ok {
+				return t, true
 			}
-			tag, ok := tags[recv.Sel.Name]
-			if !ok {
-				return true
+		}
+	case *ast.ParenExpr:
+		return sc.tagOf(x.X, env)
+	}
+	return "", false
+}
+
+var methodArgs = map[string][2]int{ // method -> (index of key argument, index of value argument; -1 = none)
+	"Update": {0, 1}, "Put": {0, 1}, "Lookup": {0, 1}, "LookupAndDelete": {0, 1}, "LookupBytes": {0, -1},
+	"Delete": {0, -1}, "NextKey": {0, -1},
+	"BatchLookup": {1, 2}, "BatchLookupAndDelete": {1, 2}, "BatchUpdate": {0, 1}, "BatchDelete": {0, -1},
+}
+var wrapperArgs = map[string][2]int{ // package function taking the map as argument 0
+	"BpfMapBatchUpdate": {1, 2}, "BpfMapBatchDelete": {1, -1},
+}
+
+// assignedVar: the variable that receives the value produced by the statement enclosing `call`
+// (`x = f()`, `x := f()`, `if v, err := f(); … { x = v }`).
+func assignedVar(stack []ast.Node) string {
+	for i := len(stack) - 1; i >= 0; i-- {
+		switch st := stack[i].(type) {
+		case *ast.IfStmt:
+			for _, b := range st.Body.List {
+				if as, ok := b.(*ast.AssignStmt); ok && len(as.Lhs) > 0 {
+					if id, ok := as.Lhs[0].(*ast.Ident); ok {
+						return id.Name
+					}
+				}
 			}
-			m := sel.Sel.Name
-			nargs := 0
-			switch m {
-			case "Update", "Put", "Lookup", "LookupAndDelete":
-				nargs = 2
-			case "Delete":
-				nargs = 1
-			default:
-				return true
-			}
-			for i := 0; i < nargs && i < len(call.Args); i++ {
-				tv, ok := pi.info.Types[call.Args[i]]
-				if !ok || tv.Type == nil {
+		case *ast.AssignStmt:
+			if i+1 < len(stack) {
+				if _, isInit := stack[i-1].(*ast.IfStmt); isInit && i > 0 {
 					continue
 				}
+			}
+			if id, ok := st.Lhs[0].(*ast.Ident); ok {
+				return id.Name
+			}
+		case *ast.FuncDecl, *ast.FuncLit:
+			return ""
+		}
+	}
+	return ""
+}
+
+func (sc *scanner) scanBody(body ast.Node, env map[types.Object]string, via string) (newBindings bool) {
+	var stack []ast.Node
+	ast.Inspect(body, func(n ast.Node) bool {
+		if n == nil {
+			stack = stack[:len(stack)-1]
+			return true
+		}
+		stack = append(stack, n)
+		call, ok := n.(*ast.CallExpr)
+		if !ok {
+			return true
+		}
+		pfx := via
+		// (1) method call on a map expression
+		if sel, ok := call.Fun.(*ast.SelectorExpr); ok {
+			if tag, ok := sc.tagOf(sel.X, env); ok {
+				if idx, ok := methodArgs[sel.Sel.Name]; ok {
+					for role, ai := range idx {
+						if ai >= 0 && ai < len(call.Args) {
+							sc.add(tag, pfx+sel.Sel.Name, role, call.Args[ai], assignedVar(stack), call.Pos())
+						}
+					}
+				}
+				return true
+			}
+		}
+		// (2) package-level wrappers and generic helpers with the map as first argument
+		fun := call.Fun
+		var typeArgs []ast.Expr
+		switch ix := fun.(type) {
+		case *ast.IndexListExpr:
+			fun, typeArgs = ix.X, ix.Indices
+		case *ast.IndexExpr:
+			fun, typeArgs = ix.X, []ast.Expr{ix.Index}
+		}
+		fname := ""
+		switch f := fun.(type) {
+		case *ast.Ident:
+			fname = f.Name
+		case *ast.SelectorExpr:
+			fname = f.Sel.Name
+		}
+		if len(call.Args) > 0 {
+			if tag, ok := sc.tagOf(call.Args[0], env); ok {
+				if idx, ok := wrapperArgs[fname]; ok {
+					for role, ai := range idx {
+						if ai >= 0 && ai < len(call.Args) {
+							sc.add(tag, pfx+fname, role, call.Args[ai], "", call.Pos())
+						}
+					}
+				} else if len(typeArgs) == 2 { // BpfMapBatchDeleteAll[K, V](m), BpfMapDeleteAll[K, V](m)
+					for role, ta := range typeArgs {
+						if tv, ok := sc.pi.info.Types[ta]; ok && tv.Type != nil {
+							sc.addType(tag, pfx+fname+"[K,V]", role, tv.Type, call.Pos())
+						}
+					}
+				}
+			}
+		}
+		// (3) newLpmMap(keys, values): creates a map with the key/value sizes of unused_lpm_type
+		if fname == "newLpmMap" && len(call.Args) == 2 {
+			sc.add("unused_lpm_type", pfx+"newLpmMap", 0, call.Args[0], "", call.Pos())
+			sc.add("unused_lpm_type", pfx+"newLpmMap", 1, call.Args[1], "", call.Pos())
+		}
+		// (4) a function of this package that is handed a map: bind its parameter, record constant co-arguments
+		var callee types.Object
+		switch f := fun.(type) {
+		case *ast.Ident:
+			callee = sc.pi.info.Uses[f]
+		case *ast.SelectorExpr:
+			callee = sc.pi.info.Uses[f.Sel]
+		}
+		if callee != nil && callee.Pkg() == sc.pi.pkg {
+			if _, isWrapper := wrapperArgs[fname]; !isWrapper {
+				for ai, a := range call.Args {
+					if tag, ok := sc.tagOf(a, env); ok {
+						if sc.bound[callee] == nil {
+							sc.bound[callee] = map[int]string{}
+						}
+						if sc.bound[callee][ai] == "" {
+							sc.bound[callee][ai] = tag
+							newBindings = true
+						}
+						// constants passed next to the map (readBpfStatsCounter(m, 0))
+						for bi, b := range call.Args {
+							if tv, ok := sc.pi.info.Types[b]; ok && bi != ai && tv.Value != nil {
+								if v := constant.ToInt(tv.Value); v.Kind() == constant.Int {
+									sc.ios = append(sc.ios, mapIO{Map: tag, Via: pfx + fname + "(const)", Role: 0, Size: 0, Type: "const",
+										Const: v.ExactString(), Assigned: assignedVar(stack), Where: sc.where(call.Pos())})
+								}
+							}
+						}
+					}
+				}
+			}
+		}
+		return true
+	})
+	return
+}
+
+func findMapIO(pi *pkgInfo, fset *token.FileSet) []mapIO {
+	sc := &scanner{pi: pi, fset: fset, tags: mapFieldTags(pi), sizes: types.SizesFor("gc", "amd64"),
+		bound: map[types.Object]map[int]string{}, decls: map[types.Object]*ast.FuncDecl{}}
+	for _, f := range pi.files {
+		for _, d := range f.Decls {
+			if fd, ok := d.(*ast.FuncDecl); ok && fd.Body != nil {
+				if obj := pi.info.Defs[fd.Name]; obj != nil {
+					sc.decls[obj] = fd
+				}
+			}
+		}
+	}
+	// pass 0: direct uses everywhere
+	for _, f := range pi.files {
+		sc.scanBody(f, nil, "")
+	}
+	direct := sc.ios
+	if os.Getenv("C19_DEBUG") != "" {
+		for c, ps := range sc.bound {
+			fmt.Fprintln(os.Stderr, "bound", c.Name(), ps, sc.decls[c] != nil)
+		}
+	}
+	// passes 1..3: inside functions that receive a map
+	done := map[string]bool{}
+	var followed []mapIO
+	for depth := 0; depth < 3; depth++ {
+		progress := false
+		for callee, params := range sc.bound {
+			fd := sc.decls[callee]
+			if fd == nil {
+				continue
+			}
+			for pidx, tag := range params {
+				k := fmt.Sprintf("%p/%d/%s", callee, pidx, tag)
+				if done[k] {
+					continue
+				}
+				done[k] = true
+				progress = true
+				// parameter object
+				var pobj types.Object
+				i := 0
+				for _, fl := range fd.Type.Params.List {
+					for _, nm := range fl.Names {
+						if i == pidx {
+							pobj = pi.info.Defs[nm]
+						}
+						i++
+					}
+				}
+				if pobj == nil {
+					continue
+				}
+				sc.ios = nil
+				sc.scanBody(fd.Body, map[types.Object]string{pobj: tag}, "in "+fd.Name.Name+": ")
+				followed = append(followed, sc.ios...)
+			}
+		}
+		if !progress {
+			break
+		}
+	}
+	all := append(direct, followed...)
+	// deterministic order, no duplicates
+	seen := map[string]bool{}
+	var out []mapIO
+	for _, io := range all {
+		k := fmt.Sprintf("%s|%s|%d|%s|%s|%s", io.Map, io.Via, io.Role, io.Type, io.Const, io.Where)
+		if !seen[k] {
+			seen[k] = true
+			out = append(out, io)
+		}
+	}
+	sort.SliceStable(out, func(i, j int) bool {
+		if out[i].Map != out[j].Map {
+			return out[i].Map < out[j].Map
+		}
+		if out[i].Where != out[j].Where {
+			return out[i].Where < out[j].Where
+		}
+		return out[i].Role < out[j].Role
+	})
+	return out
+}
+
+// findListenUse: for every `ListenSocketMap.Update(consts.K, uint64(<f>.Fd()), …)`: which field of the
+// listener the file <f> was duplicated from (`<f>, e := dup…(listener.<field>)` in the same function)
+// and the key constant.
+func findListenUse(pi *pkgInfo) [][2]string {
+	tags := mapFieldTags(pi)
+	var out [][2]string
+	for _, f := range pi.files {
+		for _, d := range f.Decls {
+			fd, ok := d.(*ast.FuncDecl)
+			if !ok || fd.Body == nil {
+				continue
+			}
+			origin := map[string]string{} // local variable -> field of the argument of its defining call
+			ast.Inspect(fd.Body, func(n ast.Node) bool {
+				as, ok := n.(*ast.AssignStmt)
+				if !ok || len(as.Rhs) != 1 || len(as.Lhs) == 0 {
+					return true
+				}
+				id, ok := as.Lhs[0].(*ast.Ident)
+				call, ok2 := as.Rhs[0].(*ast.CallExpr)
+				if !ok || !ok2 || len(call.Args) == 0 {
+					return true
+				}
+				if sel, ok := call.Args[0].(*ast.SelectorExpr); ok {
+					origin[id.Name] = sel.Sel.Name
+				}
+				return true
+			})
+			ast.Inspect(fd.Body, func(n ast.Node) bool {
+				call, ok := n.(*ast.CallExpr)
+				if !ok || len(call.Args) < 2 {
+					return true
+				}
+				sel, ok := call.Fun.(*ast.SelectorExpr)
+				if !ok || sel.Sel.Name != "Update" {
+					return true
+				}
+				recv, ok := sel.X.(*ast.SelectorExpr)
+				if !ok || tags[recv.Sel.Name] != "listen_socket_map" {
+					return true
+				}
+				key := ""
+				if k, ok := call.Args[0].(*ast.SelectorExpr); ok {
+					if x, ok := k.X.(*ast.Ident); ok {
+						key = x.Name + "." + k.Sel.Name
+					}
+				}
+				who := ""
+				ast.Inspect(call.Args[1], func(n ast.Node) bool {
+					if s, ok := n.(*ast.SelectorExpr); ok && s.Sel.Name == "Fd" {
+						if id, ok := s.X.(*ast.Ident); ok {
+							who = id.Name
+						}
+					}
+					return true
+				})
+				src := origin[who]
+				if src == "" {
+					src = "?" + who
+				}
+				out = append(out, [2]string{src, key})
+				return true
+			})
+		}
+	}
+	return out
+}
+
+// findFieldLiterals: every comparison (==, !=, <, …) and every switch case between a field of a struct
+// type `bpf*` of package control and an integer constant.
+func findFieldLiterals(pi *pkgInfo, fset *token.FileSet) []fieldLiteral {
+	var out []fieldLiteral
+	fieldOf := func(e ast.Expr) (string, string, bool) {
+		path := ""
+		for {
+			sel, ok := e.(*ast.SelectorExpr)
+			if !ok {
+				return "", "", false
+			}
+			if path == "" {
+				path = sel.Sel.Name
+			} else {
+				path = sel.Sel.Name + "." + path
+			}
+			if tv, ok := pi.info.Types[sel.X]; ok && tv.Type != nil {
 				t := tv.Type
 				if p, ok := t.Underlying().(*types.Pointer); ok {
 					t = p.Elem()
 				}
-				var sz int64
-				if plain(t) {
-					sz = sizes.Sizeof(t)
+				if n, ok := t.(*types.Named); ok && n.Obj().Pkg() == pi.pkg &&
+					(strings.HasPrefix(n.Obj().Name(), "bpf") || strings.HasPrefix(n.Obj().Name(), "_bpf")) {
+					return "stub." + n.Obj().Name(), path, true
 				}
-				pos := fset.Position(call.Pos())
-				calls = append(calls, mapCall{tag, m, i, sz, types.TypeString(t, func(p *types.Package) string { return p.Name() }),
-					fmt.Sprintf("%s:%d", filepath.Base(pos.Filename), pos.Line)})
 			}
-			// ListenSocketMap.Update(consts.K, uint64(<x>.Fd()), …)
-			if tag == "listen_socket_map" && m == "Update" && len(call.Args) >= 2 {
-				if k, ok := call.Args[0].(*ast.SelectorExpr); ok {
-					who := ""
-					ast.Inspect(call.Args[1], func(n ast.Node) bool {
-						if s, ok := n.(*ast.SelectorExpr); ok && s.Sel.Name == "Fd" {
-							if id, ok := s.X.(*ast.Ident); ok {
-								who = id.Name
+			e = sel.X
+		}
+	}
+	constOf := func(e ast.Expr) (string, bool) {
+		if tv, ok := pi.info.Types[e]; ok && tv.Value != nil {
+			if v := constant.ToInt(tv.Value); v.Kind() == constant.Int {
+				return v.ExactString(), true
+			}
+		}
+		return "", false
+	}
+	where := func(p token.Pos) string {
+		pos := fset.Position(p)
+		return fmt.Sprintf("%s:%d", filepath.Base(pos.Filename), pos.Line)
+	}
+	for _, f := range pi.files {
+		ast.Inspect(f, func(n ast.Node) bool {
+			switch x := n.(type) {
+			case *ast.BinaryExpr:
+				switch x.Op {
+				case token.EQL, token.NEQ, token.LSS, token.GTR, token.LEQ, token.GEQ:
+				default:
+					return true
+				}
+				for _, pr := range [][2]ast.Expr{{x.X, x.Y}, {x.Y, x.X}} {
+					if tn, fld, ok := fieldOf(pr[0]); ok {
+						if v, ok := constOf(pr[1]); ok {
+							out = append(out, fieldLiteral{tn, fld, v, where(x.Pos())})
+						}
+					}
+				}
+			case *ast.SwitchStmt:
+				if x.Tag == nil {
+					return true
+				}
+				if tn, fld, ok := fieldOf(x.Tag); ok {
+					for _, c := range x.Body.List {
+						for _, e := range c.(*ast.CaseClause).List {
+							if v, ok := constOf(e); ok {
+								out = append(out, fieldLiteral{tn, fld, v, where(e.Pos())})
 							}
 						}
-						return true
-					})
-					if x, ok := k.X.(*ast.Ident); ok && who != "" {
-						listen = append(listen, [2]string{who, x.Name + "." + k.Sel.Name})
 					}
 				}
 			}
 			return true
 		})
 	}
-	return
+	return out
+}
+
+// findParamInit: the identifiers mentioned in the initialiser of every field of the "PARAM" literal.
+func findParamInit(pi *pkgInfo) [][]string {
+	var out [][]string
+	for _, f := range pi.files {
+		ast.Inspect(f, func(n ast.Node) bool {
+			kv, ok := n.(*ast.KeyValueExpr)
+			if !ok {
+				return true
+			}
+			bl, ok := kv.Key.(*ast.BasicLit)
+			if !ok || bl.Kind != token.STRING || bl.Value != `"PARAM"` {
+				return true
+			}
+			cl, ok := kv.Value.(*ast.CompositeLit)
+			if !ok {
+				return true
+			}
+			for _, el := range cl.Elts {
+				fkv, ok := el.(*ast.KeyValueExpr)
+				if !ok {
+					continue
+				}
+				row := []string{fmt.Sprint(fkv.Key)}
+				ast.Inspect(fkv.Value, func(n ast.Node) bool {
+					if id, ok := n.(*ast.Ident); ok {
+						row = append(row, id.Name)
+					}
+					return true
+				})
+				out = append(out, row)
+			}
+			return false
+		})
+	}
+	return out
+}
+
+// nativeEndianTable: for every release GOARCH, which files of pkg/ebpf_internal that declare
+// `NativeEndian` are selected by their build constraints, and the byte order they choose
+// ("little"/"big"; "none"/"both" when not exactly one file is selected).
+func nativeEndianTable(repo string) [][2]string {
+	dir := filepath.Join(repo, "pkg", "ebpf_internal")
+	var out [][2]string
+	ents, _ := os.ReadDir(dir)
+	for _, a := range arches {
+		ctx := build.Default
+		ctx.GOOS, ctx.GOARCH, ctx.CgoEnabled, ctx.BuildTags = "linux", a, false, nil
+		var found []string
+		for _, e := range ents {
+			n := e.Name()
+			if !strings.HasSuffix(n, ".go") || strings.HasSuffix(n, "_test.go") {
+				continue
+			}
+			if ok, err := ctx.MatchFile(dir, n); err != nil || !ok {
+				continue
+			}
+			fs := token.NewFileSet()
+			f, err := parser.ParseFile(fs, filepath.Join(dir, n), nil, 0)
+			if err != nil {
+				continue
+			}
+			for _, d := range f.Decls {
+				gd, ok := d.(*ast.GenDecl)
+				if !ok || gd.Tok != token.VAR {
+					continue
+				}
+				for _, sp := range gd.Specs {
+					vs := sp.(*ast.ValueSpec)
+					for i, nm := range vs.Names {
+						if nm.Name == "NativeEndian" && i < len(vs.Values) {
+							if sel, ok := vs.Values[i].(*ast.SelectorExpr); ok {
+								switch sel.Sel.Name {
+								case "BigEndian":
+									found = append(found, "big")
+								case "LittleEndian":
+									found = append(found, "little")
+								default:
+									found = append(found, "other")
+								}
+							}
+						}
+					}
+				}
+			}
+		}
+		v := "none"
+		if len(found) == 1 {
+			v = found[0]
+		} else if len(found) > 1 {
+			v = "both"
+		}
+		out = append(out, [2]string{a, v})
+	}
+	return out
 }
 
 type constRow struct {
@@ -659,7 +1158,11 @@ func main() {
 	must(json.Unmarshal(raw, &sp))
 
 	mapTags, progTags, varTags := ebpfTags(stub, "bpfMaps"), ebpfTags(stub, "bpfPrograms"), ebpfTags(stub, "bpfVariables")
-	mapCalls, listenUse := findMapCalls(stub, stubL.fset)
+	mapIOs := findMapIO(stub, stubL.fset)
+	listenUse := findListenUse(stub)
+	fieldLits := findFieldLiterals(stub, stubL.fset)
+	paramInit := findParamInit(realP)
+	endian := nativeEndianTable(repo)
 
 	// ---- json
 	js := map[string]any{"classes": classes, "packed": packed, "consts": func() []constRow {
@@ -669,7 +1172,7 @@ func main() {
 		}
 		return o
 	}(), "mapTags": mapTags, "progTags": progTags, "varTags": varTags, "spec": sp,
-		"mapCalls": mapCalls, "listenUse": listenUse}
+		"mapIO": mapIOs, "listenUse": listenUse, "fieldLiterals": fieldLits, "paramInit": paramInit, "nativeEndian": endian}
 	jb, _ := json.MarshalIndent(js, "", " ")
 	must(os.WriteFile(filepath.Join(outdir, "c19_go.json"), jb, 0o644))
 
@@ -690,21 +1193,57 @@ func main() {
 	fmt.Fprintf(&b, "def goMapTags : List Name := %s\n", leanStrs(mapTags))
 	fmt.Fprintf(&b, "def goProgTags : List Name := %s\n", leanStrs(progTags))
 	fmt.Fprintf(&b, "def goVarTags : List Name := %s\n", leanStrs(varTags))
-	b.WriteString("\n/-- calls `<bpfMaps field>.Update/Lookup/Delete(key, value)` in package control: (map, method, argument index, size of the argument's static type or 0, type, where) -/\n")
-	b.WriteString("def goMapCalls : List (Name × Name × Nat × Nat × String × String) := [\n")
-	for i, c := range mapCalls {
-		fmt.Fprintf(&b, "  (%s, %s, %d, %d, %s, %s)", leanStr(c.Map), leanStr(c.Method), c.Arg, c.Size, strconv.Quote(c.Type), strconv.Quote(c.Where))
-		if i != len(mapCalls)-1 {
+	b.WriteString("\n/-- every place where package control hands a key (role 0) or value (role 1) to a map:\n(map, via, role, translator name of the Go struct type or `n!\"\"`, size of a plain-data type or 0, constant value or -1, kind of the variable the result is stored in (`udp`/`tcp`/``), type, where) -/\n")
+	b.WriteString("def goMapIO : List MapIO := [\n")
+	for i, c := range mapIOs {
+		cv := "-1"
+		if c.Const != "" {
+			cv = c.Const
+		}
+		kind := ""
+		la := strings.ToLower(c.Assigned)
+		if strings.Contains(la, "udp") {
+			kind = "udp"
+		} else if strings.Contains(la, "tcp") {
+			kind = "tcp"
+		}
+		fmt.Fprintf(&b, "  ⟨%s, %d, %s, %d, %s, %s, %s, %s⟩", leanStr(c.Map), c.Role, leanStr(c.TypeName), c.Size, cv, leanStr(kind),
+			strconv.Quote(c.Via+" "+c.Type), strconv.Quote(c.Where))
+		if i != len(mapIOs)-1 {
 			b.WriteString(",\n")
 		}
 	}
-	b.WriteString("]\n\n/-- `ListenSocketMap.Update(consts.K, uint64(<file>.Fd()), …)`: (file variable, key constant) -/\n")
+	b.WriteString("]\n\n/-- `ListenSocketMap.Update(consts.K, uint64(<file>.Fd()), …)`: (field of the listener the file was duplicated from, key constant) -/\n")
 	b.WriteString("def goListenUse : List (Name × Name) := [")
 	for i, l := range listenUse {
 		if i > 0 {
 			b.WriteString(", ")
 		}
 		fmt.Fprintf(&b, "(%s, %s)", leanStr(l[0]), leanStr(l[1]))
+	}
+	b.WriteString("]\n\n/-- comparisons / switch cases between a field of a `bpf*` struct and an integer constant: (type, field, value, where) -/\n")
+	b.WriteString("def goFieldLiterals : List (Name × Name × Int × String) := [")
+	for i, l := range fieldLits {
+		if i > 0 {
+			b.WriteString(",\n  ")
+		}
+		fmt.Fprintf(&b, "(%s, %s, %s, %s)", leanStr(l.TypeName), leanStr(l.Field), l.Value, strconv.Quote(l.Where))
+	}
+	b.WriteString("]\n\n/-- identifiers mentioned by the initialiser of each field of the PARAM literal, in field order -/\n")
+	b.WriteString("def goParamInit : List (Name × List Name) := [")
+	for i, r := range paramInit {
+		if i > 0 {
+			b.WriteString(",\n  ")
+		}
+		fmt.Fprintf(&b, "(%s, %s)", leanStr(r[0]), leanStrs(r[1:]))
+	}
+	b.WriteString("]\n\n/-- byte order of `internal.NativeEndian` per release GOARCH, from the build constraints of pkg/ebpf_internal (`little`/`big`/`none`/`both`) -/\n")
+	b.WriteString("def goNativeEndian : List (Name × Name) := [")
+	for i, r := range endian {
+		if i > 0 {
+			b.WriteString(", ")
+		}
+		fmt.Fprintf(&b, "(%s, %s)", leanStr(r[0]), leanStr(r[1]))
 	}
 	b.WriteString("]\n")
 	b.WriteString("\nend DaeVerif.C19.Gen\n")
